@@ -376,6 +376,18 @@ def check(ctx):
         ctx.violation('C19.R5', BASE, cu, Model.qual(cu), 'compile_user_type uses different keys to read and fill the cache', stmt='cache read/fill key')
     # the type descriptor looked up for the reference comes with *its* module name
     ok = any('*self.lookup_type_descriptor(ARG1, ARG2)' in t_ and t_.startswith('self.compile_type(') for t_ in texts)
+    if not ok:
+        # the unpacked form:  d, m = self.lookup_type_descriptor(type_name, module_name);  self.compile_type(name, d, m)
+        cparams = [p_ for p_ in flow.param_names(cu) if p_ != 'self']
+        for a_ in walk_no_nested(cu):
+            if isinstance(a_, ast.Assign) and isinstance(a_.targets[0], ast.Tuple) and len(a_.targets[0].elts) == 2 and all(isinstance(e_, ast.Name) for e_ in a_.targets[0].elts) \
+                    and isinstance(a_.value, ast.Call) and sem.callee_name(a_.value) == 'lookup_type_descriptor' and len(cparams) >= 3 \
+                    and [ast.unparse(x_) for x_ in a_.value.args] == cparams[1:3]:
+                d_, m_ = (e_.id for e_ in a_.targets[0].elts)
+                rebinds = [b_ for b_ in walk_no_nested(cu) if isinstance(b_, ast.Name) and isinstance(b_.ctx, ast.Store) and b_.id in (d_, m_)]
+                for c_ in walk_no_nested(cu):
+                    if isinstance(c_, ast.Call) and sem.callee_name(c_) == 'compile_type' and len(c_.args) == 3 and [ast.unparse(x_) for x_ in c_.args[1:]] == [d_, m_] and len(rebinds) == 2:
+                        ok = True
     ctx.instance('C19.R5', 'compile_user_type compiles the referenced descriptor in its defining module', 'ok' if ok else 'VIOLATION', node=cu, file=BASE)
     if not ok:
         ctx.violation('C19.R5', BASE, cu, Model.qual(cu), 'the referenced type is not compiled in the module that defines it', stmt='defining module')
